@@ -11,7 +11,9 @@ RULE = ('one case = one statement of a history executed in a real Session, follo
         'variable area: histories create scalars of all four types with names of 1..40 (and over-long) characters, '
         'DIM / auto-dimension arrays of 1..3 dimensions (OPTION BASE 0/1), assign numbers (literals and arbitrary '
         'CVS/CVD byte patterns) and strings, SWAP, ERASE, failing statements (type mismatch, duplicate definition, '
-        'subscript out of range, SWAP with an undefined variable); the "wild" histories add string expressions, '
+        'subscript out of range, SWAP with an undefined variable), ERASE with one name and with 2..4 names in one '
+        'statement (allocation order, reversed, shuffled, survivors below/between/above, repeated or undeclared '
+        'names failing part-way); the "wild" histories add string expressions, '
         'MID$/LSET, STRING$, numeric copies, FOR loops, forced collections FRE(""), CLEAR ,n with tiny memory; '
         'non-trivial = every case (each is followed by PEEKs over every variable)')
 EXPLANATION = ('theorems (PcbV.Props.C11 over PcbV.Model.VarMem): wf_reachable / strings_wf_reachable (layout and '
@@ -22,7 +24,8 @@ EXPLANATION = ('theorems (PcbV.Props.C11 over PcbV.Model.VarMem): wf_reachable /
                'peek_varptr_element (PEEK(VARPTR+i) = byte i of the stored value), peek_name_scalar (name record), '
                'peek_string_chars (the pointer leads to a stored string of that length; PEEK there = the characters = '
                'the value read back), varptr_str_spec / varptr_fits, assign_frame_scalar / assign_frame_element / '
-               'assign_frame_readback (a LET, failing or not, changes no other variable or element), '
+               'assign_frame_readback (a LET, failing or not, changes no other variable or element), erase_frame (ERASE of a '
+               'name list, failing part-way or not, changes no scalar and no element of an array it does not name), '
                'D6_counterexample (old Arrays.get_memory); correspondence: after EVERY statement the whole variable '
                'area as seen through Memory.varptr / machine PEEK / varptr_str_ (record headers, values, string '
                'bodies, element addresses) is compared with the compiled Lean model; oracle: a Python dict of '
@@ -262,9 +265,32 @@ def gen_history(rng, n_ops, base, wild):
                     b = a_dst(rng.choice('%!#$')) or b   # maybe a type mismatch
                 ops.append(['swap', a, b])
         elif r < 0.70:
-            nm = rng.choice(arrs)
-            shape.pop(nm, None)
-            ops.append(['erase', nm])
+            if rng.random() < 0.45:
+                names = [rng.choice(arrs)]
+            else:
+                # several names in ONE statement: the arrays that probably exist, in allocation order (the
+                # order of `shape`), reversed or shuffled, survivors below / between / above; sometimes an
+                # undeclared or a repeated name somewhere in the list (error part-way)
+                live = list(shape)
+                k = rng.randint(2, 4)
+                picked = sorted(rng.sample(range(len(live)), min(k, len(live))))
+                names = [live[i] for i in picked]
+                while len(names) < 2:
+                    names.append(rng.choice(arrs))
+                o = rng.random()
+                if o < 0.35:
+                    names.reverse()
+                elif o < 0.6:
+                    rng.shuffle(names)
+                if rng.random() < 0.2:
+                    extra = rng.choice(names) if rng.random() < 0.5 else rng.choice(arrs)
+                    names.insert(rng.randint(0, len(names)), extra)
+                names = names[:4]
+            for nm in names:
+                if nm not in shape:
+                    break
+                shape.pop(nm)
+            ops.append(['erase', names])
         elif r < 0.75:
             # failing statements: bad subscript, or a value of the wrong kind
             if rng.random() < 0.6:
@@ -315,6 +341,11 @@ def enc_dst(d):
     return 'e%s.%s' % (d[1].encode('ascii').hex(), ','.join(str(i) for i in d[2]))
 
 
+def erase_names(op):
+    """the name list of an ERASE op (older replay files hold a single name)"""
+    return list(op[1]) if isinstance(op[1], (list, tuple)) else [op[1]]
+
+
 def enc_op(op):
     k = op[0]
     if k == 'let':
@@ -324,7 +355,7 @@ def enc_op(op):
     if k == 'swap':
         return 'swap:%s:%s' % (enc_dst(op[1]), enc_dst(op[2]))
     if k == 'erase':
-        return 'erase:' + op[1].encode('ascii').hex()
+        return 'erase:' + ','.join(n.encode('ascii').hex() for n in erase_names(op))
     raise ValueError(op)
 
 
@@ -411,7 +442,7 @@ class Impl(object):
         if k == 'swap':
             return 'SWAP %s,%s' % (self.ref(op[1]), self.ref(op[2]))
         if k == 'erase':
-            return 'ERASE ' + self.spell(op[1])
+            return 'ERASE ' + ','.join(self.spell(n) for n in erase_names(op))
         if k == 'cat':
             lit = '"%s"' % bytes.fromhex(op[3]).decode('latin-1')
             return '%s=%s+%s' % (self.ref(op[1]), self.ref(op[2]), lit)
@@ -579,14 +610,21 @@ class Oracle(object):
             return
         if k == 'fre':
             return
+        if k == 'erase':
+            # the names are erased in the order written; an undeclared (or already erased, i.e. repeated) name
+            # stops the statement with Illegal function call after the ones before it are gone
+            for nm in erase_names(op):
+                if nm not in self.ar:
+                    if not err:
+                        raise KeyError('ERASE of the undeclared array %s raised no error' % nm)
+                    break
+                del self.ar[nm]
+            return
         if err:
             self.adopt(impl, dsts)
             return
         if k == 'dim':
             self.new_array(op[1], op[2])
-            return
-        if k == 'erase':
-            del self.ar[op[1]]
             return
         # statements that write cells: auto-dimension first
         for d in dsts:
@@ -732,6 +770,8 @@ def run_history(ctx, impl, ops, base, label, collect, modelled):
         done.append(op)
         ctx.case('%s|%d|%s' % (label, len(done), text))
         ctx.count('op:' + op[0])
+        if op[0] == 'erase':
+            ctx.count('erase-names:%d' % len(erase_names(op)))
         if len(done) == 3:
             ctx.sample({'label': label, 'base': base, 'statement': text, 'error': err})
         if err:
@@ -786,13 +826,46 @@ def fixed_histories():
         h = [['dim', 'A%', [3]], ['dim', 'B$', [2, 2]], ['dim', 'C#', [base, 1, 2]], ['dim', 'XZQJ.KVW.Q1234567!', [4]],
              ['let', ['e', 'B$', [2, 1]], ['s', b'hello'.hex()]], ['let', ['e', 'C#', [base, 1, 2]], ['n', '0000000000000081', '1#']],
              ['let', ['s', 'X%'], ['n', '0700', '7']],
-             ['erase', 'B$'], ['let', ['e', 'XZQJ.KVW.Q1234567!', [4]], ['n', '00002083', '5']],
-             ['erase', 'A%'], ['dim', 'B$', [1]], ['let', ['e', 'B$', [1]], ['s', b'x'.hex()]],
+             ['erase', ['B$']], ['let', ['e', 'XZQJ.KVW.Q1234567!', [4]], ['n', '00002083', '5']],
+             ['erase', ['A%']], ['dim', 'B$', [1]], ['let', ['e', 'B$', [1]], ['s', b'x'.hex()]],
              ['let', ['s', 'S$'], ['s', b'scalar'.hex()]], ['swap', ['s', 'S$'], ['e', 'B$', [1]]],
-             ['swap', ['e', 'C#', [base, 1, 2]], ['e', 'C#', [base, 0, 1]]], ['erase', 'C#'], ['erase', 'QQZ!'],
+             ['swap', ['e', 'C#', [base, 1, 2]], ['e', 'C#', [base, 0, 1]]], ['erase', ['C#']], ['erase', ['QQZ!']],
              ['dim', 'B$', [3]], ['swap', ['s', 'X%'], ['s', 'NW%']], ['swap', ['s', 'X%'], ['s', 'S$']],
              ['let', ['e', 'AUT%', [10]], ['n', 'ffff', '-1']], ['let', ['e', 'AUT%', [11]], ['n', 'ffff', '-1']],
-             ['erase', 'XZQJ.KVW.Q1234567!'], ['erase', 'B$'], ['erase', 'AUT%'], ['dim', 'Z!', [1, 1, 1]]]
+             ['erase', ['XZQJ.KVW.Q1234567!']], ['erase', ['B$']], ['erase', ['AUT%']], ['dim', 'Z!', [1, 1, 1]]]
+        hs.append((h, base))
+    hs += multi_erase_histories()
+    return hs
+
+
+def multi_erase_histories():
+    """ERASE with 2..4 names in one statement: allocation order, reverse order, survivors below, between and
+    above, mixed types and ranks, repeated and undeclared names (error part-way)"""
+    arrs = [('A%', [3]), ('B$', [2, 1]), ('C#', [1, 1, 1]), ('D!', [4]), ('EQ.XZ$', [1, 2]), ('F%', [2, 2])]
+    vals = {'%': ['n', '3412', '&H1234'], '!': ['n', '00002083', '5'], '#': ['n', '0000000000000081', '1#'],
+            '$': ['s', b'str'.hex()]}
+    lists = [['B$', 'D!'], ['D!', 'B$'], ['A%', 'B$'], ['EQ.XZ$', 'F%'], ['F%', 'EQ.XZ$'], ['B$', 'C#', 'D!'],
+             ['D!', 'C#', 'B$'], ['A%', 'C#', 'EQ.XZ$'], ['EQ.XZ$', 'C#', 'A%'], ['A%', 'B$', 'C#', 'D!'],
+             ['F%', 'D!', 'B$', 'A%'], ['C#', 'A%', 'F%', 'D!'],
+             ['B$', 'B$'], ['B$', 'QQZ!', 'D!'], ['QQZ!', 'B$'], ['D!', 'B$', 'D!', 'A%'], ['A%', 'C#', 'ZZQ%']]
+    hs = []
+    for i, names in enumerate(lists):
+        base = i % 2
+        h = []
+        for nm, dims in arrs:
+            dims = [max(d, base) for d in dims]
+            h.append(['dim', nm, dims])
+            h.append(['let', ['e', nm, dims], vals[nm[-1]]])
+            h.append(['let', ['e', nm, [base] * len(dims)], vals[nm[-1]]])
+        h.append(['let', ['s', 'S$'], ['s', b'scalar'.hex()]])
+        h.append(['erase', names])
+        # life goes on in the moved arrays: assign, create a scalar (moves array space up), declare again
+        for nm, dims in arrs:
+            if nm not in names:
+                h.append(['let', ['e', nm, [base] * len(dims)], vals[nm[-1]]])
+        h.append(['let', ['s', 'X%'], ['n', '0700', '7']])
+        h.append(['dim', names[0], [2]])
+        h.append(['erase', [a[0] for a in arrs if a[0] not in names][:2] + [names[0]]])
         hs.append((h, base))
     return hs
 
